@@ -3,7 +3,7 @@ import absint
 import q
 from callgraph import CallGraph
 from mir import Agg, Bin, Call, Const, Named, Ref, Var
-from rules.common import RFC4648, expect_defs, has_fact
+from rules.common import RFC4648, expect_defs, has_fact, opt_fact
 
 SM = "encoder::serialize_mappings"
 SRM = "encoder::serialize_range_mappings"
@@ -298,16 +298,19 @@ def optional_keys(ctx, rule):
     ok = len(shapes) == 2 and "Option::None{}" in shapes and any(q.wild("Option::Some{0:Iterator::collect(Iterator::map(SourceMap::source_contents(arg1),closure:*))}", x) for x in shapes)
     ctx.check(ok, rule, body.path, "sources_content",
               "sourcesContent is None unless at least one source has contents, and the collected contents otherwise", detail=str(shapes))
-    for f, want in (("file", "Option::map(SourceMap::get_file(arg1),closure:*)"), ("source_root", "Option::map(SourceMap::get_source_root(arg1),closure:*)"),
-                    ("debug_id", "SourceMap::get_debug_id(arg1)"), ("sections", "Option::None{}"), ("x_facebook_sources", "Option::None{}"), ("_debug_id_new", "Option::None{}"),
-                    ("sources", "Option::Some{0:Iterator::collect(Iterator::map(slice::iter(arg1.sources),closure:*))}"),
-                    ("names", "Option::Some{0:Iterator::collect(Iterator::map(SourceMap::names(arg1),closure:*))}"),
-                    ("mappings", "Option::Some{0:encoder::serialize_mappings(arg1)}"), ("range_mappings", "encoder::serialize_range_mappings(arg1)")):
+    copies = [c % "p1" for c in STRING_COPY]
+    for f, wants in (("file", ["Option::map(SourceMap::get_file(arg1),%s(Value::String{0:%s}))" % (LAM, c) for c in copies]),
+                     ("source_root", ["Option::map(SourceMap::get_source_root(arg1),%s(%s))" % (LAM, c) for c in copies] + ["Option::map(SourceMap::get_source_root(arg1),fn:%s)" % c.split("(")[0] for c in copies]),
+                     ("debug_id", ["SourceMap::get_debug_id(arg1)"]), ("sections", ["Option::None{}"]), ("x_facebook_sources", ["Option::None{}"]), ("_debug_id_new", ["Option::None{}"]),
+                     ("sources", ["Option::Some{0:Iterator::collect(Iterator::map(slice::iter(arg1.sources),%s(Option::Some{0:%s})))}" % (LAM, c) for c in copies]),
+                     ("names", ["Option::Some{0:Iterator::collect(Iterator::map(SourceMap::names(arg1),%s(Value::String{0:%s})))}" % (LAM, c) for c in copies]),
+                     ("mappings", ["Option::Some{0:encoder::serialize_mappings(arg1)}"]), ("range_mappings", ["encoder::serialize_range_mappings(arg1)"])):
         sh = q.shape(a.field(f))
-        ctx.check(q.wild(want, sh), rule, body.path, "field:%s" % f, "RawSourceMap.%s is filled from %s" % (f, want), detail=sh)
+        ctx.check(sh in wants, rule, body.path, "field:%s" % f, "RawSourceMap.%s is filled from %s" % (f, wants[0]), detail=sh)
     _element_closures(ctx, rule, body, a)
 
 
+LAM = "\u03bb"
 STRING_COPY = ("ToString::to_string(%s)", "ToOwned::to_owned(%s)", "str::to_owned(%s)", "str::to_string(%s)", "from<String>(%s)", "String::from(%s)")
 
 
@@ -322,16 +325,6 @@ def _element_closures(ctx, rule, body, a):
     """The closures the regular writer maps over file / sourceRoot / sources / names / contents copy
     each element unchanged, and the `have contents` flag is a monotone latch that is set for
     every source that has contents."""
-    wrap = {"file": "Value::String{0:%s}", "source_root": "%s", "sources": "Option::Some{0:%s}", "names": "Value::String{0:%s}"}
-    for f, w in wrap.items():
-        cl = _closure_in(a.field(f))
-        cb = ctx.facts.body(cl.closure, required=False) if cl is not None else None
-        if not ctx.check(cb is not None, rule, body.path, "closure:%s" % f, "the %s values go through a closure of the writer" % f):
-            continue
-        shapes = [sh for sh, site, _ in q.def_shapes(cb, 0, {})]
-        acc = [w % (c % "arg2") for c in STRING_COPY]
-        ctx.check(len(shapes) == 1 and shapes[0] in acc and not any(cb.blocks[b]["term"]["k"] == "switch" for b in cb.reachable_blocks()), rule, cb.path, "copy:%s" % f,
-                  "every %s element is copied unchanged (%s)" % (f, w % "copy(x)"), detail=str(shapes))
     # contents
     sc = q.root_local(a.field("sources_content"))
     cl = None
@@ -372,7 +365,7 @@ def _element_closures(ctx, rule, body, a):
     if ok:
         sb = somes[0][1][0]
         ctx.check(any(cb.dominates(b, sb) for b, _ in stores), rule, cb.path, "latch:set-on-some", "the flag is set whenever a source has contents", ctx.site(cb, sb))
-        ctx.check(has_fact(cb, nones[0][1][0], {}, ("variant_not_in", "arg2", "(1,)")), rule, cb.path, "contents:none-only-absent", "None is produced only for a source without contents",
+        ctx.check(has_fact(cb, nones[0][1][0], {}, *opt_fact("none", "arg2")), rule, cb.path, "contents:none-only-absent", "None is produced only for a source without contents",
                   ctx.site(cb, nones[0][1][0]))
 
 
@@ -436,6 +429,8 @@ def sections(ctx, rule):
     sh = q.shape(a.field("sections"))
     ctx.check(q.wild("Option::Some{0:Iterator::collect(Iterator::map(SourceMapIndex::sections(arg1),closure:*))}", sh), rule, body.path, "sections:all", "every section is written, in order", detail=sh)
     ctx.check(q.shape(a.field("file")).startswith("Option::map(SourceMapIndex::get_file(arg1)"), rule, body.path, "file", "the index file name is written")
+    fsh = q.shape(a.field("file"))
+    ctx.check(fsh in ["Option::map(SourceMapIndex::get_file(arg1),%s(Value::String{0:%s}))" % (LAM, c % "p1") for c in STRING_COPY], rule, body.path, "file:copy", "... unchanged", detail=fsh)
     cl = None
     for x in a.field("sections").walk():
         if isinstance(x, Agg) and x.ak == "closure":
@@ -448,12 +443,14 @@ def sections(ctx, rule):
     s = secs[0]
     ctx.check(q.shape(s.field("offset")) == "RawSectionOffset{line:SourceMapSection::get_offset_line(arg2),column:SourceMapSection::get_offset_col(arg2)}", rule, cl.path, "offset",
               "offset.line / offset.column carry the section's line / column offset (not swapped)", detail=q.shape(s.field("offset")))
-    ctx.check(q.shape(s.field("url")).startswith("Option::map(SourceMapSection::get_url(arg2)"), rule, cl.path, "url", "the section url is written")
+    ush = q.shape(s.field("url"))
+    ctx.check(ush in ["Option::map(SourceMapSection::get_url(arg2),fn:%s)" % c.split("(")[0] for c in STRING_COPY], rule, cl.path, "url", "the section url is written unchanged", detail=ush)
     msh = q.shape(s.field("map"))
-    ctx.check(q.wild("Option::map(SourceMapSection::get_sourcemap(arg2),closure:*)", msh), rule, cl.path, "map", "the embedded map is written when present", detail=msh)
-    inner = [b for b in ctx.facts.closures_of(AS_RAW["index"]) if b.path.count("{closure") == 2]
-    ok = bool(inner) and any(q.nice(t.get("resolved") or "") == "DecodedMap::as_raw_sourcemap" for bi, t in inner[0].calls())
-    ctx.check(ok, rule, cl.path, "map:recursive", "the embedded map is converted recursively through DecodedMap::as_raw_sourcemap")
+    ctx.check(msh == "Option::map(SourceMapSection::get_sourcemap(arg2),%s(Box::new(DecodedMap::as_raw_sourcemap(p1))))" % LAM, rule, cl.path, "map",
+              "the embedded map is written when present, converted recursively and whole through DecodedMap::as_raw_sourcemap", detail=msh)
+    dsh = [sh for sh, _, _ in q.def_shapes(cl, 0, {})]
+    ctx.check(len(dsh) == 1 and dsh[0].startswith("RawSection{") and not any(cl.blocks[b]["term"]["k"] == "switch" for b in cl.reachable_blocks()), rule, cl.path, "section:unconditional",
+              "every section is converted the same way (no case distinction)", detail=str(dsh)[:200])
     # section offsets accessors
     for g, idx in (("get_offset_line", "0"), ("get_offset_col", "1")):
         b = ctx.body("types::SourceMapSection::%s" % g)
